@@ -211,19 +211,26 @@ func (w *World) Maint(op sim.Op) bool {
 		f := files[int(op.A)%len(files)]
 		err := db.VerifGCFile(f.Bucket, f.FileID, 0.01, op.B%2 == 1)
 		synctest.Wait()
-		if err == nil {
+		w.Res.Trace.Add("gc file %d/%d force=%v -> %v", f.Bucket, f.FileID, op.B%2 == 1, err)
+		switch {
+		case err == nil:
 			w.Res.Faults["vlog_gc_rewrite"]++
-		} else if strings.HasPrefix(err.Error(), "verif:") || errors.Is(err, utils.ErrNoRewrite) || errors.Is(err, utils.ErrEmptyKey) {
-			// RunValueLogGC maps ErrEmptyKey to "nothing to do" as well.
-			w.Res.Probes["gc_noop"]++
-		} else {
-			w.Res.Violate(w.step, "gc_error", nil, "value-log GC of %v failed: %v", f, err)
+		case strings.HasPrefix(err.Error(), "verif:"):
+			w.Res.Probes["gc_not_eligible"]++
+		default:
+			// A GC pass that gives up with an error is allowed by the property (it
+			// must not change what reads return); it may still have rewritten some
+			// entries before failing, so it counts as a GC that ran.
+			w.Res.Faults["vlog_gc_attempt_failed"]++
 		}
 	case "rungc":
 		err := db.RunValueLogGC(0.01)
 		synctest.Wait()
+		w.Res.Trace.Add("rungc -> %v", err)
 		if err == nil {
 			w.Res.Faults["vlog_gc_run"]++
+		} else if !errors.Is(err, utils.ErrNoRewrite) && !errors.Is(err, utils.ErrRejected) {
+			w.Res.Faults["vlog_gc_attempt_failed"]++
 		}
 	case "advance":
 		d := time.Duration(op.A) * time.Millisecond
@@ -351,4 +358,37 @@ func ArtPrefixPair(w *World, key []byte) bool {
 		return false
 	}
 	return string(key) == "k0" || string(key) == "k0\x00"
+}
+
+// DescribeCopies renders every stored copy of (cf,key) for violation details.
+func DescribeCopies(w *World, cf kv.ColumnFamily, key []byte) string {
+	var b strings.Builder
+	for _, cp := range w.DB.VerifLSM().VerifLocate(kv.InternalKey(cf, key, 0)) {
+		if cp.Meta&kv.BitValuePointer != 0 {
+			var vp kv.ValuePtr
+			vp.Decode(cp.Value)
+			fmt.Fprintf(&b, "[%s#%d v=%d meta=%d ptr=%d/%d@%d] ", cp.Where, cp.FileID, cp.Version, cp.Meta, vp.Bucket, vp.Fid, vp.Offset)
+		} else {
+			fmt.Fprintf(&b, "[%s#%d v=%d meta=%d %q] ", cp.Where, cp.FileID, cp.Version, cp.Meta, trunc(cp.Value))
+		}
+	}
+	return b.String()
+}
+
+// readErrSig classifies a failed read of a key the model says is readable.
+func readErrSig(w *World, api string, err error) map[string]string {
+	sig := map[string]string{"api": api, "kind": "other"}
+	if strings.Contains(err.Error(), "value log file") || strings.Contains(err.Error(), "not found") {
+		sig["kind"] = "vlog_file_missing"
+	}
+	sig["vlog_gc_ran"] = "no"
+	if GCRan(w) {
+		sig["vlog_gc_ran"] = "yes"
+	}
+	return sig
+}
+
+// GCRan reports whether any value-log GC pass got as far as touching data in this run.
+func GCRan(w *World) bool {
+	return w.Res.Faults["vlog_gc_rewrite"]+w.Res.Faults["vlog_gc_run"]+w.Res.Faults["vlog_gc_attempt_failed"] > 0
 }
